@@ -12,6 +12,8 @@ use simcore::{Sim, Tier};
 fn lookup(name: &str) -> Option<Box<dyn Sim>> {
 	match name {
 		"lnsim" => Some(Box::new(lnsim::LnSim)),
+		"transportsim" => Some(Box::new(transportsim::TransportSim)),
+		"blocksyncsim" => Some(Box::new(blocksyncsim::BlockSyncSim)),
 		_ => None,
 	}
 }
